@@ -1,5 +1,6 @@
 import ParryModel.Proto
 import ParryModel.C13.Model
+import ParryModel.C13.Model3
 /-!
 C13 protocol handlers: model evaluation at `Float` (bit-exact against parry2d-f64 / parry3d-f64) and exact-`Rat`
 oracles on the implementation's output.
@@ -296,6 +297,266 @@ def momScale3 (ps : List (MP3 Float)) : Rat × Rat × Rat :=
 def sumMom3 (ms : List (Rat × V3 Rat × RM3)) : Rat × V3 Rat × RM3 :=
   ms.foldl (fun s e => (s.1 + e.1, ⟨s.2.1.x + e.2.1.x, s.2.1.y + e.2.1.y, s.2.1.z + e.2.1.z⟩, radd s.2.2 e.2.2)) (0, ⟨0, 0, 0⟩, rdiag 0 0 0)
 
+/-! ## 3-D triangle meshes (`mass_properties_trimesh3d.rs`)
+
+Exact oracle: a triangle list whose directed edges cancel in pairs (vertices identified by exact position) is a closed
+oriented surface (a 2-cycle); its signed-tetrahedron sums do not depend on the apex, so they are taken with the apex at
+the ORIGIN (the code uses the vertex average, then the centre of mass) and the second moments by the vertex/edge-midpoint
+rule `∫_T f = V/20 · (4 Σ f(m_ij) − Σ f(v_i))`, exact for quadratics.  The expected result is the same whatever the sign
+of the total signed volume: mass `ρ|V|`, centre `F/V`, tensor `ρ·sgn(V)·(…)` — an inward-wound mesh must give the mass,
+centre AND inertia of the solid. -/
+def pmesh3 : P (List (V3 Float) × List (Nat × Nat × Nat)) := do let vs ← plist pv3; let idx ← plist pidx; pure (vs, idx)
+def eq3 (a b : V3 Rat) : Bool := a.x == b.x && a.y == b.y && a.z == b.z
+def add3 (a b : V3 Rat) : V3 Rat := ⟨a.x + b.x, a.y + b.y, a.z + b.z⟩
+def sub3 (a b : V3 Rat) : V3 Rat := ⟨a.x - b.x, a.y - b.y, a.z - b.z⟩
+def scale3 (a : V3 Rat) (s : Rat) : V3 Rat := ⟨a.x * s, a.y * s, a.z * s⟩
+def mid3 (a b : V3 Rat) : V3 Rat := ⟨(a.x + b.x) / 2, (a.y + b.y) / 2, (a.z + b.z) / 2⟩
+def l1 (a : V3 Rat) : Rat := rabs a.x + rabs a.y + rabs a.z
+def detQ (a b c : V3 Rat) : Rat :=
+  a.x * (b.y * c.z - b.z * c.y) - a.y * (b.x * c.z - b.z * c.x) + a.z * (b.x * c.y - b.y * c.x)
+def outerQ (v : V3 Rat) : RM3 := rm fun i j => v.get i * v.get j
+def rscale (a : RM3) (s : Rat) : RM3 := a.map (· * s)
+def rsub (a b : RM3) : RM3 := rm fun i j => rget a i j - rget b i j
+def rzero : RM3 := rdiag 0 0 0
+/-- inertia tensor `tr(P)·1 − P` of a second-moment matrix `P = ∫ x xᵀ` -/
+def inertiaOfCov (p : RM3) : RM3 := rsub (rdiag (rtrace p) (rtrace p) (rtrace p)) p
+
+/-- exact signed moments of the tetrahedron `(o, a, b, c)`: `(V, ∫ x, ∫ x xᵀ)` (coordinates absolute) -/
+def tetMom (o a b c : V3 Rat) : Rat × V3 Rat × RM3 :=
+  let V := detQ (sub3 a o) (sub3 b o) (sub3 c o) / 6
+  let vs := [o, a, b, c]
+  let ms := [mid3 o a, mid3 o b, mid3 o c, mid3 a b, mid3 b c, mid3 c a]
+  let g := scale3 (add3 (add3 o a) (add3 b c)) (1 / 4)
+  let sv := vs.foldl (fun s v => radd s (outerQ v)) rzero
+  let sm := ms.foldl (fun s v => radd s (outerQ v)) rzero
+  (V, scale3 g V, rscale (rsub (rscale sm 4) sv) (V / 20))
+
+def resolveQ (vs : Array (V3 Rat)) : List (Nat × Nat × Nat) → Option (List (V3 Rat × V3 Rat × V3 Rat))
+  | [] => some []
+  | (i, j, k) :: rest =>
+    match vs[i]?, vs[j]?, vs[k]?, resolveQ vs rest with
+    | some a, some b, some c, some ts => some ((a, b, c) :: ts)
+    | _, _, _, _ => none
+
+/-- total signed moments of the cones from `o` over the triangles -/
+def meshMom (o : V3 Rat) (ts : List (V3 Rat × V3 Rat × V3 Rat)) : Rat × V3 Rat × RM3 :=
+  ts.foldl (fun s (a, b, c) => let e := tetMom o a b c; (s.1 + e.1, add3 s.2.1 e.2.1, radd s.2.2 e.2.2)) (0, ⟨0, 0, 0⟩, rzero)
+
+/-- directed edges cancel in pairs (vertices identified by exact position): the triangles form a closed oriented surface -/
+def isCycle (vs : Array (V3 Rat)) (idx : List (Nat × Nat × Nat)) : Bool :=
+  let n := vs.size
+  let canon : Array Nat := (Array.range n).map fun i => ((List.range i).find? fun j => eq3 (vs.getD j ⟨0, 0, 0⟩) (vs.getD i ⟨0, 0, 0⟩)).getD i
+  let c (i : Nat) : Nat := canon.getD i i
+  let edges : List (Nat × Nat) := idx.flatMap fun (i, j, k) => [(c i, c j), (c j, c k), (c k, c i)]
+  let edges := edges.filter fun (a, b) => a != b
+  let fwd := (edges.map fun (a, b) => a * n + b).toArray.qsort (· < ·)
+  let rev := (edges.map fun (a, b) => b * n + a).toArray.qsort (· < ·)
+  fwd == rev
+
+structure MeshSpec where
+  /-- length scale for tolerances: extent of the vertex set + 1e-6 of the coordinate magnitude -/
+  L : Rat
+  /-- extent alone -/
+  ext : Rat
+  V : Rat
+  com : V3 Rat
+  /-- unit-density inertia tensor about `com`, sign-corrected (positive semi-definite for a solid) -/
+  Ic : RM3
+
+/-- expected mass properties (unit density) of a closed oriented surface; `Except` carries the oracle verdict for
+inputs outside the clause -/
+def meshSpec (vs : List (V3 Rat)) (ts : List (V3 Rat × V3 Rat × V3 Rat)) (idx : List (Nat × Nat × Nat)) : Except String MeshSpec :=
+  match vs with
+  | [] => .error "skip empty-slice"
+  | v0 :: _ =>
+    let ext := vs.foldl (fun m v => rmax m (l1 (sub3 v v0))) 0
+    let S := vs.foldl (fun m v => rmax m (l1 v)) 0
+    let L := ext + S / 1000000
+    if !isCycle vs.toArray idx then .error "skip not-a-closed-oriented-surface" else
+    let (V, F, P) := meshMom ⟨0, 0, 0⟩ ts
+    if rabs V < ext * ext * ext / 1000000 ∨ ext = 0 then .error "skip degenerate-volume" else
+    let c := scale3 F (1 / V)
+    let Pc := rsub P (rscale (outerQ c) V)
+    let sg : Rat := if V < 0 then -1 else 1
+    let Ic := rscale (inertiaOfCov Pc) sg
+    -- a solid (all winding numbers of one sign) has a positive semi-definite tensor; components of opposite
+    -- orientations (density +1 and −1) are not a uniformly filled shape
+    let m2 (i j : Nat) : Rat := rget Ic i i * rget Ic j j - rget Ic i j * rget Ic j i
+    if rget Ic 0 0 < 0 ∨ rget Ic 1 1 < 0 ∨ rget Ic 2 2 < 0 ∨ m2 0 1 < 0 ∨ m2 0 2 < 0 ∨ m2 1 2 < 0 ∨ rdet Ic < 0 then
+      .error "skip not-a-solid (indefinite tensor: components of opposite orientations)" else
+    .ok ⟨L, ext, V, c, Ic⟩
+
+/-- exact signed volume of the cones from the exact vertex average (what `from_trimesh` divides by, whether or not the
+soup is closed) relative to the cube of the extent: `none` when it is below `1e-6` -/
+def soupNondegenerate (vs : List (V3 Rat)) (ts : List (V3 Rat × V3 Rat × V3 Rat)) : Option (Rat × Rat) :=
+  match vs with
+  | [] => none
+  | v0 :: _ =>
+    let ext := vs.foldl (fun m v => rmax m (l1 (sub3 v v0))) 0
+    let S := vs.foldl (fun m v => rmax m (l1 v)) 0
+    let g := scale3 (vs.foldl add3 ⟨0, 0, 0⟩) (1 / (vs.length : Rat))
+    let V := (meshMom g ts).1
+    if rabs V < ext * ext * ext / 1000000 ∨ ext = 0 then none else some (ext + S / 1000000, V)
+
+def judgeMeshMC (ρ : Rat) (sp : MeshSpec) (c : V3 Float) (invMass : Float) : String :=
+  if !(finite3 c && FloatIO.isFinite invMass) then "fail nonfinite-output" else
+  let m := rinv (q invMass)
+  let want := ρ * rabs sp.V
+  if !close m want (ρ * sp.L * sp.L * sp.L) then s!"fail mass got={m} want={want}"
+  else if !(close (q c.x) sp.com.x sp.L && close (q c.y) sp.com.y sp.L && close (q c.z) sp.com.z sp.L) then
+    s!"fail com got=({q c.x},{q c.y},{q c.z}) want=({sp.com.x},{sp.com.y},{sp.com.z})"
+  else "pass"
+
+/-- tensor / principal inertias / frame of a result of `with_inertia_matrix` against the exact tensor `want` -/
+def judgeMeshTensor (want : RM3) (scale : Rat) (model : Option (M3 Float)) (out : M3 Float) (pin : V3 Float) (fr : Quat Float) : String :=
+  if !(finite3 out.r0 && finite3 out.r1 && finite3 out.r2 && finite3 pin) then "fail nonfinite-output" else
+  let P := q3 pin
+  if P.x < 0 ∨ P.y < 0 ∨ P.z < 0 then "fail negative-principal-inertia" else
+  let n2 := q fr.i * q fr.i + q fr.j * q fr.j + q fr.k * q fr.k + q fr.w * q fr.w
+  if !close n2 1 1 then "fail frame-not-unit" else
+  let O := rofM3 out
+  let scale := scale + 1 / 1000000000000
+  -- the principal inertias are the eigenvalues of the exact tensor: the three invariants agree
+  let D := rdiag P.x P.y P.z
+  let eigOk := close (rtrace D) (rtrace want) scale && close (rtrace (rmul D D)) (rtrace (rmul want want)) (scale * scale)
+               && close (rdet D) (rdet want) (scale * scale * scale)
+  if !eigOk then s!"fail principal-inertia got=({P.x},{P.y},{P.z}) want-tensor={want.toList}"
+  else if closeM O want scale then
+    match model with
+    | none => "pass"
+    | some mo => if closeM O (rofM3 mo) scale then "pass" else s!"fail model-tensor-differs got={O.toList} model={(rofM3 mo).toList}"
+  else
+    let dev := (List.range 9).foldl (fun m n => rmax m (rabs (O.getD n 0 - want.getD n 0))) 0
+    s!"fail principal-frame eigenvalues-right eigenvectors-wrong deviation/scale={((dev / scale) * 1000000000).floor}e-9"
+
+def fmesh3Out (o : Mesh3Out Float) : String :=
+  match o with
+  | .panic => "panic"
+  | .zero => "0000000000000000 0000000000000000 0000000000000000 0000000000000000"
+  | .raw c m _ => s!"{fv3 c} {ff (inv m)}"
+
+/-- common front of the mesh oracles: `panic` expected on an empty vertex slice / bad index, otherwise the exact spec -/
+def withMesh (vs : List (V3 Float)) (idx : List (Nat × Nat × Nat)) (o : List String)
+    (k : List (V3 Rat) → List (V3 Rat × V3 Rat × V3 Rat) → String) : String :=
+  let V := vs.map q3
+  if V.isEmpty then (if o.head? = some "panic" then "skip empty-slice (documented assert)" else "fail no-panic-on-empty-slice") else
+  match resolveQ V.toArray idx with
+  | none => if o.head? = some "panic" then "pass" else "fail no-panic-on-bad-index"
+  | some ts => if o.head? = some "panic" then "fail panic" else k V ts
+
+def handlerMesh3 (fn : String) : Option Handler :=
+  match fn with
+  | "tet_signed_volume" => some {
+      model := fun a => run (do let a ← pv3; let b ← pv3; let c ← pv3; let d ← pv3; pure (ff (tetSignedVolume a b c d))) a
+      oracle := fun a o => match run (do let a ← pv3; let b ← pv3; let c ← pv3; let d ← pv3; pure (a, b, c, d)) a with
+        | some (a, b, c, d) => withOut pfo o fun r =>
+            let A := q3 a
+            let want := detQ (sub3 (q3 b) A) (sub3 (q3 c) A) (sub3 (q3 d) A) / 6
+            let L := rmax (l1 (sub3 (q3 b) A)) (rmax (l1 (sub3 (q3 c) A)) (l1 (sub3 (q3 d) A))) + (l1 A) / 1000000
+            if close (q r) want (L * L * L) then "pass" else s!"fail signed-volume got={q r} want={want}"
+        | none => "skip bad-args" }
+  | "tet_unit_inertia" => some {
+      model := fun a => run (do let o ← pv3; let a ← pv3; let b ← pv3; let c ← pv3; let d ← pv3; pure (fm3 (tetUnitInertia o a b c d))) a
+      oracle := fun a o => match run (do let o ← pv3; let a ← pv3; let b ← pv3; let c ← pv3; let d ← pv3; pure (o, a, b, c, d)) a with
+        | some (pt, a, b, c, d) => withOut pom3 o fun out =>
+            -- per unit volume: the quadrature weights alone (vertices −1/20, edge midpoints 4/20), about `pt`
+            let O := q3 pt
+            let vs := [sub3 (q3 a) O, sub3 (q3 b) O, sub3 (q3 c) O, sub3 (q3 d) O]
+            let ms := match vs with
+              | [a, b, c, d] => [mid3 a b, mid3 a c, mid3 a d, mid3 b c, mid3 b d, mid3 c d]
+              | _ => []
+            let sv := vs.foldl (fun s v => radd s (outerQ v)) rzero
+            let sm := ms.foldl (fun s v => radd s (outerQ v)) rzero
+            let want := inertiaOfCov (rscale (rsub (rscale sm 4) sv) (1 / 20))
+            let L := vs.foldl (fun m v => rmax m (l1 v)) 0 + (l1 O) / 1000000
+            if closeM (rofM3 out) want (L * L) then "pass" else s!"fail unit-inertia got={(rofM3 out).toList} want={want.toList}"
+        | none => "skip bad-args" }
+  | "trimesh3_vol_com" => some {
+      model := fun a => run (do let (vs, idx) ← pmesh3
+                                pure (match center3 vs, resolveTris3 vs.toArray idx with
+                                  | some gc, some ts => let r := meshVolCom3 gc ts; s!"{ff r.1} {fv3 r.2}"
+                                  | _, _ => "panic")) a
+      oracle := fun a o => match run pmesh3 a with
+        | some (vs, idx) => withMesh vs idx o fun V ts =>
+            withOut (do let v ← pfo; let c ← pov3; pure (v, c)) o fun (v, c) =>
+              match meshSpec V ts idx with
+              | .error e => e
+              | .ok sp =>
+                if !(FloatIO.isFinite v && finite3 c) then "fail nonfinite-output"
+                else if !close (q v) sp.V (sp.L * sp.L * sp.L) then s!"fail signed-volume got={q v} want={sp.V}"
+                else if !(close (q c.x) sp.com.x sp.L && close (q c.y) sp.com.y sp.L && close (q c.z) sp.com.z sp.L) then
+                  s!"fail com got=({q c.x},{q c.y},{q c.z}) want=({sp.com.x},{sp.com.y},{sp.com.z})"
+                else "pass"
+        | none => "skip bad-args" }
+  | "from_trimesh3" | "trimesh3_shape" => some {
+      model := fun a => run (do let d ← pf; let (vs, idx) ← pmesh3
+                                if fn = "trimesh3_shape" ∧ idx.isEmpty then pure "none"   -- `TriMesh::new` refuses an empty index buffer
+                                else pure (fmesh3Out (fromTrimesh3 d vs idx))) a
+      oracle := fun a o => match run (do let d ← pf; let m ← pmesh3; pure (d, m)) a with
+        | some (d, vs, idx) =>
+          if o = ["none"] then (if idx.isEmpty then "skip empty-index-buffer" else "fail trimesh-rejected") else
+          withMesh vs idx o fun V ts =>
+            withOut (do let c ← pov3; let im ← pfo; pure (c, im)) o fun (c, im) =>
+              match meshSpec V ts idx with
+              | .error e => e
+              | .ok sp => judgeMeshMC (q d) sp c im
+        | none => "skip bad-args" }
+  | "from_trimesh3_tensor" => some {
+      model := fun _ => some "oracle-only"
+      oracle := fun a o => match run (do let d ← pf; let m ← pmesh3; pure (d, m)) a with
+        | some (d, vs, idx) => withMesh vs idx o fun V ts =>
+            withOut (do let t ← pom3; let p ← pov3; let i ← pfo; let j ← pfo; let k ← pfo; let w ← pfo; pure (t, p, (⟨i, j, k, w⟩ : Quat Float))) o fun (t, p, fr) =>
+              match meshSpec V ts idx with
+              | .error e => e
+              | .ok sp =>
+                let ρ := q d
+                let model : Option (M3 Float) := match fromTrimesh3 d vs idx with
+                  | .raw _ _ i => some i
+                  | _ => none
+                judgeMeshTensor (rscale sp.Ic ρ) (ρ * sp.L * sp.L * sp.L * sp.L * sp.L) model t p fr
+        | none => "skip bad-args" }
+  | "from_trimesh3_flip" => some {
+      model := fun _ => some "oracle-only"
+      oracle := fun a o => match run (do let d ← pf; let m ← pmesh3; pure (d, m)) a with
+        | some (d, vs, idx) => withMesh vs idx o fun V ts =>
+            withOut (do let m1 ← pfo; let c1 ← pov3; let t1 ← pom3; let m2 ← pfo; let c2 ← pov3; let t2 ← pom3; pure (m1, c1, t1, m2, c2, t2)) o
+              fun (m1, c1, t1, m2, c2, t2) =>
+              -- metamorphic clause, valid for every triangle soup: reversing every winding changes nothing
+              match soupNondegenerate V ts with
+              | none => "skip degenerate-volume"
+              | some (L, _) =>
+                let ρ := q d
+                if !(FloatIO.isFinite m1 && FloatIO.isFinite m2 && finite3 c1 && finite3 c2 && finite3 t1.r0 && finite3 t1.r1 && finite3 t1.r2
+                     && finite3 t2.r0 && finite3 t2.r1 && finite3 t2.r2) then "fail nonfinite-output"
+                else if !close (q m1) (q m2) (ρ * L * L * L) then s!"fail flipped-mass {q m1} vs {q m2}"
+                else if !(close (q c1.x) (q c2.x) L && close (q c1.y) (q c2.y) L && close (q c1.z) (q c2.z) L) then "fail flipped-com"
+                else
+                  let A := rofM3 t1; let B := rofM3 t2
+                  let scale := ρ * L * L * L * L * L
+                  if closeM A B scale then "pass"
+                  else if close (rtrace A) (rtrace B) scale && close (rtrace (rmul A A)) (rtrace (rmul B B)) (scale * scale)
+                          && close (rdet A) (rdet B) (scale * scale * scale) then
+                    "fail principal-frame eigenvalues-right eigenvectors-wrong (flip)"
+                  else s!"fail flipped-inertia outward={A.toList} inward={B.toList}"
+        | none => "skip bad-args" }
+  | "convex3_shape" => some {
+      model := fun _ => some "oracle-only"
+      oracle := fun a o => match run (do let d ← pf; let m ← pmesh3; pure (d, m)) a with
+        | some (d, vs, idx) =>
+          if o = ["none"] then "skip mesh-rejected-by-from_convex_mesh" else
+          withMesh vs idx o fun V ts =>
+            withOut (do let c ← pov3; let im ← pfo; let t ← pom3; let p ← pov3; let i ← pfo; let j ← pfo; let k ← pfo; let w ← pfo
+                        pure (c, im, t, p, (⟨i, j, k, w⟩ : Quat Float))) o fun (c, im, t, p, fr) =>
+              match meshSpec V ts idx with
+              | .error e => e
+              | .ok sp =>
+                let ρ := q d
+                let r := judgeMeshMC ρ sp c im
+                if r != "pass" then r else
+                judgeMeshTensor (rscale sp.Ic ρ) (ρ * sp.L * sp.L * sp.L * sp.L * sp.L) none t p fr
+        | none => "skip bad-args" }
+  | _ => none
+
 def handler3 (fn : String) : Option Handler :=
   match fn with
   | "from_ball3" => some {
@@ -463,7 +724,7 @@ def handler3 (fn : String) : Option Handler :=
             if tot.1 = 0 then "skip massless-family" else
             judgeTensor3 tot (momScale3 ps) (MP3.sumObs ps).2.2 out
         | none => "skip bad-args" }
-  | _ => none
+  | _ => handlerMesh3 fn
 
 /-- a compound part: isometry + shape (`0 r` ball, `1 hx hy` cuboid, `2 n pts…` convex polygon) -/
 inductive Part2 where
